@@ -4,6 +4,7 @@
 #include "transport.h"
 #include "ber.h"
 #include <cerrno>
+#include <climits>
 #include <algorithm>
 extern "C" {
 #include <constraints.h>
@@ -24,7 +25,7 @@ struct Subject {
     Plan head;
 };
 
-struct Rec { bool ran = false; int rc = 0; size_t consumed = 0; uint64_t fph = 0; ssize_t enc = -2; uint64_t ench = 0; long allocs = 0; };
+struct Rec { bool ran = false; int rc = 0; size_t consumed = 0; uint64_t fph = 0; ssize_t enc = -2; uint64_t ench = 0; long allocs = 0; long cbs = 0; };
 
 struct Fault { int op = -1; long k = -1; bool sticky = false; int op2 = -1; long k2 = -1; };
 
@@ -40,6 +41,15 @@ static uint64_t fp_hash(const Fingerprint &f) {
 }
 
 static int null_sink(const void *, size_t, void *) { return 0; }
+// output callback that starts failing at its k-th invocation (and keeps failing): the encode then fails half-way, and
+// whatever temporaries the encoder held at that point must still be released
+struct FailSink { long k; long calls = 0; bool fired = false; uint64_t h = 0xcbf29ce484222325ULL; };
+static int fail_sink(const void *b, size_t n, void *key) {
+    FailSink *f = (FailSink *)key;
+    if(f->calls++ >= f->k) { f->fired = true; return -1; }
+    f->h = fnv1a(b, n, f->h);
+    return 0;
+}
 
 static bool all_zero(const void *p, size_t n) {
     const uint8_t *b = (const uint8_t *)p;
@@ -66,6 +76,7 @@ static Verdict exec_history(const Subject &s, const std::vector<Op> &ops, const 
     Bytes curE; Syntax cur_sy = SY_DER; size_t off = 0;
     bool diverged = false;
     unsigned fired = 0;
+    unsigned sink_fired = 0;
     const size_t ssize = struct_size_of(s.td);
     if(s.caller_mode && ssize) { slot = sim_alloc_tracked(ssize); st = S_FRESH; }
     auto fail = [&](int j, const std::string &cls, const std::string &detail, const std::string &site = "") {
@@ -168,7 +179,16 @@ static Verdict exec_history(const Subject &s, const std::vector<Op> &ops, const 
             G.add("c14.resets");
         } else if(op.name == "encode") {
             if(!slot) continue;
-            EncResult e = encode_to_vec(s.td, slot, sy);
+            EncResult e;
+            {   // always through the counting sink; it fails from its k-th invocation on when the op carries sinkfail=k
+                FailSink fs; fs.k = op.has("sinkfail") ? op.attrl("sinkfail") : LONG_MAX;
+                asn_enc_rval_t er; er.encoded = -1;
+                bool okc = libcall([&] { er = asn_encode(0, syntax_ats(sy), s.td, slot, fail_sink, &fs); });
+                e.aborted = !okc; e.encoded = okc ? er.encoded : -1;
+                e.out.resize(8); memcpy(e.out.data(), &fs.h, 8);          // what reached the sink before any failure, as a hash
+                rec.cbs = fs.calls;
+                if(fs.fired) { sink_fired++; if(okc && er.encoded >= 0) { fail(j, "sink-failure-ignored", "output callback failed but the encoder reported success"); break; } }
+            }
             rec.allocs = sim_alloc_op_count(); int f = sim_alloc_fault_fired(); fired += f;
             sim_alloc_fail_at(-1, 0); sim_alloc_fail_at2(-1);
             rec.ran = true; rec.enc = e.encoded; rec.ench = fnv1a(e.out.data(), e.out.size());
@@ -253,6 +273,7 @@ static Verdict exec_history(const Subject &s, const std::vector<Op> &ops, const 
     }
     sim_alloc_fail_at(-1, 0); sim_alloc_fail_at2(-1);
     sim_alloc_free_all_live();
+    if(sink_fired) G.add("c14.fired.sink_failure", sink_fired);
     if(fired_out) *fired_out = fired;
     return v;
 }
@@ -337,12 +358,12 @@ static std::vector<Op> gen_history(const Subject &s, Rng &r, const Bytes *other)
                 Op o = mkop("decode-garbage", {"DER"}); o.attrs["hex"] = to_hex(g); o.attrs["cont"] = "1";
                 ops.push_back(o); st = S_DONE;
             } else if(c < 75) { ops.push_back(mkop("reset")); st = S_FRESH; }
-            else if(c < 85) { ops.push_back(mkop("encode", {syntax_name(enc_sy())})); }
+            else if(c < 85) { Op o = mkop("encode", {syntax_name(enc_sy())}); if(r.chance(1, 3)) o.attrs["sinkfail"] = L(r.chance(1, 4) ? (long)r.below(200) : (long)r.geom(8) - 1); ops.push_back(o); }
             else if(c < 92) { ops.push_back(mkop("print")); }
             else { ops.push_back(mkop("free")); st = S_NULL; have_slot = false; }
         } else { // S_DONE
             if(c < 30) { ops.push_back(mkop("reset")); st = S_FRESH; }
-            else if(c < 55) { ops.push_back(mkop("encode", {syntax_name(enc_sy())})); }
+            else if(c < 55) { Op o = mkop("encode", {syntax_name(enc_sy())}); if(r.chance(1, 3)) o.attrs["sinkfail"] = L(r.chance(1, 4) ? (long)r.below(200) : (long)r.geom(8) - 1); ops.push_back(o); }
             else if(c < 65) { ops.push_back(mkop("tonew", {syntax_name(enc_sy())})); }
             else if(c < 73) { ops.push_back(mkop("check")); }
             else if(c < 81) { ops.push_back(mkop("print")); }
@@ -412,7 +433,21 @@ static void c14_run(uint64_t seed, uint64_t index, bool thorough) {
                 if(stop) break;
             }
         }
-        // thorough: one allocation failure in each of two different ops
+        // enumerate output callback failures: every encode op, every invocation index reached (sampled above the cap)
+        for(int j = 0; j < (int)ops.size() && !stop; j++) {
+            if(ops[j].name != "encode" || !recs[j].ran || recs[j].cbs <= 0 || ops[j].has("sinkfail")) continue;
+            long n = recs[j].cbs; std::vector<long> ks;
+            if(n <= cap) { for(long k = 0; k < n; k++) ks.push_back(k); }
+            else { for(long q = 0; q < cap; q++) ks.push_back((long)rf.below((uint64_t)n)); ks.push_back(0); ks.push_back(n - 1); G.add("c14.sink_k_sampled"); }
+            for(long k : ks) {
+                std::vector<Op> fo = ops; fo[j].attrs["sinkfail"] = L(k);
+                status_ops(ops_str(fo));
+                unsigned fr = 0;
+                Verdict fv = exec_history(s, fo, Fault(), nullptr, nullptr, &fr);
+                G.add("c14.executions"); G.add("c14.sink_failure_runs"); any_fired = true;
+                if(fv.violated) { report_violation("C14", mk_sig(fv), fv.detail, s.head.head_str() + ops_str(fo)); stop = true; break; }
+            }
+        }
         if(thorough && !stop) {
             std::vector<int> allocating;
             for(int j = 0; j < (int)ops.size(); j++) if(recs[j].ran && recs[j].allocs > 0) allocating.push_back(j);
